@@ -193,6 +193,8 @@ def r06_5(ctx):
         P = collections.defaultdict(set)
         E = collections.defaultdict(set)
         S = collections.defaultdict(set)
+        PV = collections.defaultdict(set)     # the same tables keyed per enum variant
+        SV = collections.defaultdict(set)
         vs = set()
         for b in [pb] + F.closures_of(pb.key):
             for bi, bl in enumerate(b.blocks):
@@ -208,6 +210,7 @@ def r06_5(ctx):
                             for l in leafs(o):
                                 if l.startswith('C:') and view_of(l[2:]):
                                     P[(adt, fn)].add(l[2:].rsplit('::', 1)[-1])
+                                    PV[(adt, s[2][1].get('variant') or '-', fn)].add(l[2:].rsplit('::', 1)[-1])
                                     vs.add(view_of(l[2:]))
         for b in [eb] + F.closures_of(eb.key):
             for x in b.calls():
@@ -224,6 +227,7 @@ def r06_5(ctx):
                                 k = (labs[-1][2], labs[-1][1])
                                 E[k].add(last)
                                 S[last].add(k)
+                                SV[last].add((labs[-1][2], labs[-1][3] if len(labs[-1]) > 3 else '-', labs[-1][1]))
         getters = set()
         for v in vs:
             getters |= {m.key.rsplit('::', 1)[-1] for m in F.methods(v)}
@@ -252,6 +256,26 @@ def r06_5(ctx):
                                 f"{rs}::parse fills `{f[1]}` from {g}() but emit hands {sorted(x[1] for x in S['set_'+g])} to set_{g}()", body=eb)
                     else:
                         ctx.ok((rs, f, g, 'rev'))
+        # per variant: a field that parse fills from getter g is handed to set_g by emit in the arm of that very variant (another
+        # variant having a field of the same name that is emitted must not hide a variant whose arm dropped the setter)
+        for (adt, var, fn), gs in sorted(PV.items()):
+            if var == '-' or adt != R:
+                continue
+            for g in sorted(gs):
+                sg = 'set_' + g
+                if sg not in SV or sg in DERIVED_SETTERS:
+                    continue
+                same_variant = {x for x in SV[sg] if x[0] == adt and x[1] == var}
+                others = {x for x in SV[sg] if x[0] == adt and x[1] != var}
+                if not others:
+                    continue         # nothing to compare with
+                tot += 1
+                fed_here = {ff for ff, gg in PV.items() if g in gg and ff[0] == adt and ff[1] == var}
+                if fed_here & same_variant:
+                    ctx.ok((rs, var, fn, g, 'per-variant'))
+                else:
+                    ctx.bad(f"{rs}|{var}.{fn}|parse:{g}|not-emitted-in-this-arm", f"{rs}::parse fills {var}.{fn} from {g}(), and emit hands the like-named field of "
+                            f"{sorted(x[1] for x in others)[:3]} to {sg}(), but in the {var} arm no field reaches {sg}(): the value is lost on the wire", body=eb)
     ctx.need(tot >= 150, f"paired (Repr field, accessor) relations (found {tot})")
 
 
